@@ -3,7 +3,7 @@
 The real `keypress` function runs in a real thread; only the three names it uses from the module globals of
 lib_guesser.cracking_session are replaced for the duration of one run:
   input  -> blocks on a harness queue (the harness decides when a line, EOF or an error arrives),
-  time   -> sleep() is a no-op,
+  time   -> sleep() is a no-op (and, with clock_step, the status report's clock is a counter owned by the harness),
   threading -> Thread subclass that remembers the instance (so the harness can wait for it to settle).
 Events are delivered at named loop positions; after delivering one the harness waits until the thread is
 blocked in input() again or has terminated, so every schedule is reproducible.
@@ -188,7 +188,7 @@ def read_sav(path):
     return {s: dict(c[s]) for s in c.sections()}
 
 
-def run_main(root, argv, events=(), fail_stderr_after=None):
+def run_main(root, argv, events=(), fail_stderr_after=None, clock_step=None):
     """Runs the real pcfg_guesser.main() with __file__ pointing into `root` (so Rules/ and *.sav live there).
 
     root: scratch directory containing Rules/<name>/...; argv: command line without the program name.
@@ -282,7 +282,28 @@ def run_main(root, argv, events=(), fail_stderr_after=None):
 
     sav_before = _sav_text()
     out, err = io.StringIO(), io.StringIO()
+    saved['sr_time'] = sr.time
+    if clock_step is not None:
+        # harness-owned clock for the status report: every reading is clock_step seconds after the previous one, so elapsed
+        # times of minutes, hours or days occur in runs that really take milliseconds
+        tick = {'t': 1000.0}
+
+        def _now():
+            tick['t'] += clock_step
+            return tick['t']
+
+        class _Clock:
+            perf_counter = staticmethod(_now)
+            time = staticmethod(_now)
+            monotonic = staticmethod(_now)
+            process_time = staticmethod(_now)
+            sleep = staticmethod(lambda s_: None)
+
+            def __getattr__(self, name):
+                return getattr(saved['sr_time'], name)
     try:
+        if clock_step is not None:
+            sr.time = _Clock()
         cs.threading = types.SimpleNamespace(Thread=T, main_thread=threading.main_thread)
         cs.time = types.SimpleNamespace(sleep=lambda s: None)
         cs.input = sched.input
@@ -306,6 +327,7 @@ def run_main(root, argv, events=(), fail_stderr_after=None):
         sched.release()
         cs.threading = saved['threading']
         cs.time = saved['time']
+        sr.time = saved['sr_time']
         if saved['input'] is None:
             cs.__dict__.pop('input', None)
         else:
